@@ -1,6 +1,6 @@
 """C06 - sector ledgers reflect exactly the cash flows recorded on them.
 
-spec:   spec/Sector.tla (actions AddVariable, SetRHS, Exclude, AddCashFlow; invariants C06_F,
+spec:   spec/Sector.tla (actions AddVariable, AddVarFromEqn, AddTerm (AddTermToEquation), SetRHS, Exclude, AddCashFlow; invariants C06_F,
         C06_INC, C06_DefineOnce stated over the history `log`)
 TLC:    exhaustive check of the bounded instances; every maximal behaviour is emitted as the list
         of its action keys, the alphabet (key -> action record) once
@@ -33,6 +33,8 @@ Readings (the weaker one is used wherever the statement allows two):
   '0.0+0.25*W'): they must never be overwritten.  The zero spellings '0' and '0.' are generated too, but
   the statement can be read either way for them, so AddCashFlow may keep or replace them (property);
   that the code keeps them is a conformance clause.
+* "existing definition" / "identically zero" refer to the variable's whole right-hand side: a placeholder
+  that got terms by AddTermToEquation is a definition, a term-by-term definition that cancelled is zero.
 * definitions are compared by value on the two valuations (text only when not evaluable); the text
   itself is a conformance clause.
 * a call that raises is drift (`call_raised`); the ledgers it leaves behind are still judged against
@@ -56,8 +58,8 @@ BATCH = 32000        # behaviours executed and validated per round (bounds memor
 
 
 def term_text(a):
-    inner = a['s2'] + a['body']
-    return a['s1'] + ('(' + inner + ')' if a['br'] else a['body'])
+    x = a['eqn'] if a['op'] == 'AT' else a['body']      # AddTermToEquation: the name added is in `eqn`
+    return a['s1'] + ('(' + a['s2'] + x + ')' if a['br'] else x)
 
 
 def show(a):
@@ -69,6 +71,10 @@ def show(a):
         return "AddVariable('%s','','%s')" % (a['body'], a['eqn'])
     if a['op'] == 'SR':
         return "SetEquationRightHandSide('%s','%s')" % (a['body'], a['eqn'])
+    if a['op'] == 'AT':
+        return "AddTermToEquation('%s','%s')" % (a['body'], term_text(a))
+    if a['op'] == 'AQ':
+        return "AddVariableFromEquation(Equation('%s'))" % a['body']
     return "AddCashFlowIncomeExclusion(%s,'%s')" % (WHO[a['who']], a['body'])
 
 
@@ -169,6 +175,7 @@ def execute(beh, verbose=False):
     """Run one behaviour (list of action records) on fresh real objects; returns the trace events."""
     from sfc_models.models import Model, Country
     from sfc_models.sector import Sector
+    from sfc_models.equation import Equation
     mod = Model()
     country = Country(mod, 'C1', 'Country C1')
     country2 = Country(mod, 'C2', 'Country C2')
@@ -189,6 +196,10 @@ def execute(beh, verbose=False):
                 sec.AddVariable(a['body'], '', a['eqn'])
             elif a['op'] == 'SR':
                 sec.SetEquationRightHandSide(a['body'], a['eqn'])
+            elif a['op'] == 'AT':
+                sec.AddTermToEquation(a['body'], term_text(a))
+            elif a['op'] == 'AQ':
+                sec.AddVariableFromEquation(Equation(a['body']))
             elif a['op'] == 'EX':
                 mod.AddCashFlowIncomeExclusion(targets[a['who']], a['body'])
             else:
@@ -248,7 +259,8 @@ def signature(clause, beh, events, at):
             text = prev[a['body']].get('d', '')
             own = 'defined(' + ('zero-literal-prefix' if text[:1] == '0' else 'other') + ')'
         others = sorted(set(prev[n]['k'] for n in FLOW_NAMES if n != a['body']))
-        return 'define:flow-var=%s:eqn=%s:others=%s' % (own, eq, '+'.join(others))
+        built = int(any(b['op'] == 'AT' and b['body'] == a['body'] for b in before))
+        return 'define:flow-var=%s:eqn=%s:others=%s:built-with-AddTermToEquation=%d' % (own, eq, '+'.join(others), built)
     return clause + ':' + a['op']
 
 
@@ -347,7 +359,7 @@ def run(rep):
         cfgs = [('MC_Sector_quick.cfg', 1), ('MC_Sector_thorough.cfg', 1), ('MC_Sector_thorough2.cfg', 1), ('MC_Sector_thorough3.cfg', 1)]
     rep.rule = ('behaviours = all maximal histories (length MaxLen) of the bounded Sector instances emitted by TLC '
                 'over their action alphabets (AddCashFlow spellings x income flag x defining expression, Exclude for '
-                'this sector / its same-Code twin in a second country / another sector, AddVariable, SetEquationRightHandSide); each replayed on a fresh real '
+                'this sector / its same-Code twin in a second country / another sector, AddVariable, AddVariableFromEquation, AddTermToEquation, SetEquationRightHandSide); each replayed on a fresh real '
                 'Model/Country/Sector; distinct = distinct call sequences; non-trivial = at least one AddCashFlow')
     rep.exhaustive = True
     rep.assumptions = ['ledger values are computed in exact rational arithmetic and compared (60-fold, as integers) on two '
